@@ -243,14 +243,19 @@ def heap_stream(tier, seed):
     """random operation sequences over PatternedTensors / MultiTensors: real objects vs the Coq heap model"""
     rng = random.Random(seed * 1009 + 18)
     nseq = int(os.environ.get("VERIF_N_HEAP", 0)) or (220 if tier == "quick" else 6000)
-    runs = []
+    runs = []; crashes = []
     for i in range(nseq):
         length = rng.choice([3, 4, 5, 6, 7, 8, 9, 10, 11, 12, 12])
         shape, ops, steps, excs = H.gen_sequence(rng, length)
+        if len(excs) > len(ops):        # an operation raised although the model predicts no exception
+            crashes.append(excs.pop())
         runs.append((shape, ops, steps, excs))
     vals = [r[2] for r in runs]
     codes, nk = run_model(HEAPFN, vals, seed=seed, coq_sample=6 if tier == "quick" else 25, tag="c18heap")
     violations = []; nshrunk = {}
+    for cr in crashes:
+        violations.append(Violation("heap model: an operation raised an exception that the model does not predict", case=dict(kind="heap-exception", **cr),
+                                    corr="C18 / corr:heap", failing_input_found=False, call=cr["operation"].get("op")))
     # self-test of the checker on this run's data: corrupt the observation of one sequence and expect the verdict
     selftest = heap_selftest(runs, codes)
     if selftest.get("failed"):
@@ -381,6 +386,6 @@ def replay(path):
 MANIFEST = dict(
     level="proof",
     text="Coq heap model of the container layer (Model/Heap.v: storages, PatternedTensor objects = storage + cells + layout + default, MultiTensor = key -> object reference; 25 operations transcribed from indices.py / multi.py with their sharing behaviour): C18_frame (every operation mutates only its target objects and writes only their storages), C18_clone_independent / C18_mclone_independent (after a clone EVERY operation sequence that only mutates objects made by/after the clone leaves every older object's denotation unchanged; by a watermark invariant over the sequence), C18_mclone_deep, C18_clone_equal, and the witnesses C18_view_shares, C18_getitem_shares, C18_iter_shares, C18_to_same_dtype_shares, C18_copy_into_view_writes_source, C18_add_single_aliases, C18_shallow_clone_refuted (= seeded/C18-d). Correspondence: random operation sequences run on the real objects and through the extracted model; after every step the storage partition (data_ptr), every dense value/default, every dictionary and the identity of every returned object are compared, violations are shrunk to a minimal sequence; the clone clause itself is judged on the real objects by the model's discipline. Also: ownership model of in-place updates -- a trace of (allocate | write) events accepted by trace_ok leaves every caller-owned storage unchanged and every written storage was allocated inside the call. A TorchFunctionMode monitor records the actual in-place / out= torch calls of every query and the Coq checker judges the trace; deep snapshots of every argument before/after each call and result digests (vs a fresh deep copy and vs earlier identical calls) are compared in Coq, over random interleavings of all listed queries on the same objects.",
-    note="Partial: which torch calls alias or write is runtime behaviour; the model covers the ownership discipline, the monitor what torch did on the explored histories. Trusted: the monitor's classification of in-place calls (name ends with '_' or out=), sha1 digests, harness.",
-    technique="Coq ownership-model theorem + runtime write monitor and snapshot oracle judged by the extracted checker",
+    note="Clone clause: proved for all operation sequences on the heap model of the container layer, whose sharing behaviour is compared with the real objects after every step of random sequences (notes/C18.md lists the 25 modelled operations and what is outside: reshape/view, __add__/__sub__, requires_grad_, the einsum/solve layer). Query part: partial -- which torch calls alias or write inside sum_product/viterbi/... is runtime behaviour; the model covers the ownership discipline, the monitor what torch did on the explored histories. Trusted: the pattern-layer parameters (layouts, selected positions, memory format) the harness hands to the heap model, the monitor's classification of in-place calls (name ends with '_' or out=), sha1 digests, harness. Side finding (not a C18 violation): MultiTensor.copy_ raises RuntimeError('dictionary changed size during iteration') whenever the destination has a key the source lacks (after deleting the first such key); modelled as it is.",
+    technique="Coq heap model (separation/watermark invariant by induction over operation sequences) + model-vs-implementation sharing/value comparison with shrinking; Coq ownership-model theorem + runtime write monitor and snapshot oracle judged by the extracted checker",
     design_ref="DESIGN.md section 6, C18")
